@@ -397,7 +397,8 @@ def _goal_pairs(outcome, env):
 def _observed_arrays(outcome):
     obs = {}
     for label, o, _ in outcome.pairs:
-        obs[label] = o
+        if not label.startswith("sym:"):     # symbolic-only obligations (e.g. derivatives of terms) have no plain twin
+            obs[label] = o
     if outcome.vjp is not None:
         for i, o in enumerate(outcome.vjp["outs"]):
             obs["out%d" % i] = o
